@@ -2192,6 +2192,14 @@ func (c *Conn) handleRecordContent(
 			receivedACK: &protocol.ACK{Records: append([]protocol.RecordNumber(nil), content.Records...)},
 		}, nil
 	case *alert.Alert:
+		if prepared.header.Epoch == 0 && c.handshakeEstablished != nil && c.isHandshakeCompletedSuccessfully() {
+			// Once the handshake is complete the peer protects its alerts. An
+			// unprotected one can come from anybody and must not be able to
+			// close the connection.
+			c.log.Debug("discarded unprotected alert after the handshake")
+
+			return false, packetOutcome{}, nil
+		}
 		c.log.Tracef("%s: <- %s", srvCliStr(dtlsstate.CommonState(c.state).IsClient), content.String())
 		var responseAlert *alert.Alert
 		if content.Description == alert.CloseNotify {
